@@ -44,7 +44,29 @@ func oneOp(ts *pdus.Tables, r *fw.Rng) (kind, digest string) {
 	ctx := context.Background()
 	t := ts.Types[r.Intn(len(ts.Types))]
 	lt := t.Lib()
-	switch r.Intn(14) {
+	switch r.Intn(15) {
+	case 14:
+		// an encode that must FAIL (a value too long for its fixed-width slot): the error path releases pooled
+		// buffers too, and must do so exactly once
+		cands := oversizeCandidates(ts)
+		oc := cands[r.Intn(len(cands))]
+		v, _ := pdus.Gen(oc.t, r, -1, 0)
+		f := oc.t.Fields[oc.field]
+		big := make([]byte, f.W+1+r.Intn(8))
+		for i := range big {
+			big[i] = byte('A' + r.Intn(26))
+		}
+		if f.Repr != "" {
+			big = r.Bytes(f.W + 1 + r.Intn(4))
+		}
+		if oc.elem {
+			v.F[f.Spec] = [][]byte{big}
+			v.F[f.Count] = uint64(1)
+		} else {
+			v.F[f.Spec] = big
+		}
+		b, err := pdus.Build(oc.t, v).IEncode()
+		return "encode-refused", fmt.Sprintf("%v|%d", err != nil, len(b))
 	case 0, 1:
 		v, _ := pdus.Gen(lt, r, -1, 0)
 		b, err := pdus.Build(lt, v).IEncode()
@@ -152,6 +174,22 @@ func oneOp(ts *pdus.Tables, r *fw.Rng) (kind, digest string) {
 		b, _ := smgp30.ExtractDeliveryReceipt(rc)
 		return "receipts", fmt.Sprintf("%+v|%+v", a, b)
 	}
+}
+
+var (
+	oversizeCands     []oversizeCase
+	oversizeCandsOnce sync.Once
+)
+
+func oversizeCandidates(ts *pdus.Tables) []oversizeCase {
+	oversizeCandsOnce.Do(func() {
+		for _, oc := range c01OversizeCases(ts) {
+			if oc.extra == 1 {
+				oversizeCands = append(oversizeCands, oc)
+			}
+		}
+	})
+	return oversizeCands
 }
 
 func c13Case(c *fw.Case, perturb bool) {
